@@ -1198,6 +1198,29 @@ def _owned_next(eng, st, args, ci):
     return some(seq.items[p])
 
 
+# ---------------------------------------------------------------- slice.contains(&x)
+
+@intrinsic(r'^(core|std)::slice::<impl \[.*\]>::contains$', 'slice::contains(&x): disjunction of element equalities (integers, strings)', prio=2)
+def _slice_contains(eng, st, args, ci):
+    seq = _deref_arg(eng, st, args[0])
+    x = _deref_arg(eng, st, args[1])
+    if not isinstance(seq, Seq):
+        raise Unsupported('slice::contains on %r' % (seq,))
+    alts = []
+    for it in seq.items:
+        it = _deref_arg(eng, st, it)
+        if isinstance(it, StrVal) and isinstance(x, StrVal):
+            if it.s is not None and x.s is not None:
+                alts.append(z3.BoolVal(it.s == x.s))
+            else:
+                alts.append(str_expr(it) == str_expr(x))
+        elif isinstance(it, BV) and isinstance(x, BV):
+            alts.append(it.e == x.e)
+        else:
+            raise Unsupported('slice::contains over %r / %r' % (it, x))
+    return z3.Or(alts) if alts else z3.BoolVal(False)
+
+
 # ---------------------------------------------------------------- slice.get(range)
 
 @intrinsic(r'^(core|std)::slice::<impl \[.*\]>::get::<(std::ops::)?(RangeFrom|RangeTo|Range)<usize>>$', 'slice::get(range): Some(sub-slice) when the bounds fit, None otherwise', prio=2)
@@ -1326,6 +1349,52 @@ def _filter_map_next(eng, st, args, ci):
     return results
 
 
+@intrinsic(r'^<(std::iter::)?FilterMap<(std::vec::|alloc::vec::)?IntoIter<.*>, .*> as (std::iter::)?Iterator>::next$', 'FilterMap<vec::IntoIter>::next (by-value items; forks on the closure result per element)')
+def _filter_map_owned_next(eng, st, args, ci):
+    fm = args[0]
+    fmv = eng.read_ref(st, fm) if isinstance(fm, Ref) else fm
+    if not (isinstance(fmv, Tup) and len(fmv.items) == 2 and isinstance(fmv.items[0], Tup) and fmv.items[0].name == 'OwnedIter'):
+        raise Unsupported('FilterMap::next on %r' % (fmv,))
+    it, f = fmv.items
+    cell, pos = it.items
+    seq = eng.read_ref(st, cell)
+    p = pos.concrete()
+    n = len(seq.items)
+    results = []
+    live = [st]
+
+    def advance(s_, to):
+        if isinstance(fm, Ref):
+            eng.write_ref(s_, fm, Tup([Tup([cell, bv_const(to, 'usize')], 'OwnedIter'), f], fmv.name))
+    for j in range(p, n):
+        nxt = []
+        for s in live:
+            for (s2, kind, val) in eng.call_value(s, f, [seq.items[j]], None):
+                if kind != 'ret':
+                    results.append((s2, kind, val))
+                    continue
+                some_c = val.discr == 1
+                can_some = eng.feasible(s2, some_c)
+                can_none = eng.feasible(s2, z3.Not(some_c))
+                if can_some and can_none:
+                    s3 = s2.fork()
+                    s3.assume(z3.Not(some_c))
+                    nxt.append(s3)
+                    s2.assume(some_c)
+                    advance(s2, j + 1)
+                    results.append((s2, 'ret', Enum('Option', 1, {1: val.payloads[1]})))
+                elif can_some:
+                    advance(s2, j + 1)
+                    results.append((s2, 'ret', Enum('Option', 1, {1: val.payloads[1]})))
+                elif can_none:
+                    nxt.append(s2)
+        live = nxt
+    for s in live:
+        advance(s, n)
+        results.append((s, 'ret', NONE))
+    return results
+
+
 @intrinsic(r'^<(std::iter::)?Filter<(std|core)::slice::Iter<.*>, .*> as (std::iter::)?Iterator>::next$', 'Filter<slice::Iter>::next (forks on the predicate per element; the cursor advances)')
 def _filter_next(eng, st, args, ci):
     fr = args[0]
@@ -1397,6 +1466,21 @@ def _vd_push_back(eng, st, args, ci):
     v = eng.read_ref(st, args[0])
     eng.write_ref(st, args[0], Seq(v.items + (args[1],)))
     return UNIT
+
+
+@intrinsic(r'^(std::collections::)?VecDeque::<.*>::drain::<(std::ops::)?RangeFull>$|^(std::vec::)?Vec::<.*>::drain::<(std::ops::)?RangeFull>$', 'VecDeque / Vec::drain(..): yields every element, leaves the container empty')
+def _vd_drain_all(eng, st, args, ci):
+    v = eng.read_ref(st, args[0])
+    if not isinstance(v, Seq):
+        raise Unsupported('drain on %r' % (v,))
+    cell = eng.ref_to(st, Seq(list(v.items)), True, 'drained')
+    eng.write_ref(st, args[0], Seq([]))
+    return Tup([cell, bv_const(0, 'usize')], 'OwnedIter')
+
+
+@intrinsic(r'^<(std::collections::)?vec_deque::Drain<.*> as (std::iter::)?Iterator>::next$|^<(std::vec::)?Drain<.*> as (std::iter::)?Iterator>::next$', 'Drain::next')
+def _drain_next(eng, st, args, ci):
+    return _owned_next(eng, st, args, ci)
 
 
 @intrinsic(r'^(std|core)::iter::repeat::<', 'iter::repeat(x) = the endless iterator of x (only usable under take)')
